@@ -221,15 +221,21 @@ def main():
     shutil.rmtree(casedir, ignore_errors=True)
     os.makedirs(casedir)
     violations = []   # dicts: {kind, detail, replay}
+    corr_errors = []
     try:
-        if a.replay:
-            res = harness.replay(json.load(open(a.replay)), casedir=casedir, variant=variant)
-        else:
-            h_tier = tier if proof_ok else "thorough"   # a broken proof widens the search
-            res = harness.generate(tier=h_tier, seed=seed, casedir=casedir, variant=variant)
+        try:
+            if a.replay:
+                res = harness.replay(json.load(open(a.replay)), casedir=casedir, variant=variant)
+            else:
+                h_tier = tier if proof_ok else "thorough"   # a broken proof widens the search
+                res = harness.generate(tier=h_tier, seed=seed, casedir=casedir, variant=variant)
+        except Exception as ex:      # the harness itself could not run against this tree: nothing is shown, report it
+            import traceback
+            tb = traceback.format_exc()
+            res = dict(meta={}, oracle_violations=[], evaluations=0, distinct_nontrivial=0, rule="the harness raised before finishing", samples=[{"traceback": tb[-1500:]}])
+            corr_errors = [("harness", f"{type(ex).__name__}: {ex}\n{tb[-2500:]}")]
         total, bad, errors = run_cases(casedir)
-        if errors:
-            raise SystemExit("framework error: case files failed to evaluate:\n" + "\n".join(f"{n}\n{o}" for n, o in errors[:2]))
+        corr_errors = corr_errors + errors
         # correspondence disagreements -> replays
         for v in res.get("oracle_violations", []):
             violations.append({"kind": "oracle", "detail": v["detail"], "case": v["case"]})
@@ -267,6 +273,15 @@ def main():
                    "proof_ok": proof_ok, "variant": variant, "seed": seed,
                    "how_to_replay": f"./check {pid} --replay <this file>"}, open(replay_path, "w"), indent=1, default=str)
         lines.append(f"VIOLATION property={pid} replay={replay_path}")
+        exit_code = 1
+    elif corr_errors:
+        # the correspondence itself could not be evaluated (a case file did not type-check / evaluate): the property is
+        # not shown to hold on this tree
+        replay_path = os.path.join(ROOT, "replays", f"{pid}_{int(time.time())}_{os.getpid()}.json")
+        json.dump({"property": pid, "kind": "correspondence-not-evaluable",
+                   "detail": "the correspondence case files of this run could not be evaluated against the model",
+                   "files": [n for n, _ in corr_errors], "coq_error": corr_errors[0][1][-2000:]}, open(replay_path, "w"), indent=1)
+        lines.append(f"VIOLATION property={pid} replay={replay_path} no-failing-input-found")
         exit_code = 1
     elif not proof_ok:
         replay_path = os.path.join(ROOT, "replays", f"{pid}_{int(time.time())}_{os.getpid()}.json")
